@@ -78,6 +78,8 @@ Definition a_detach (src : lid) (n : name) (x : ast) : ast * list lid :=
          (sflag x || existsb rz (filter (on_src src n) (regs x))),
    ws).
 
+(* removal of src: the holders of live registrations on src, name by name (the names in the
+   model's enumeration order c, b, a, ""), within a name each thread once *)
 Definition a_detach_all (src : lid) (x : ast) : ast * list lid :=
   (mkAst (filter (fun r => negb (lid_eqb src (rsrc r))) (regs x)) (nseq x) (pend x) (frame x) (tseq x)
          (sflag x || existsb rz (filter (fun r => lid_eqb src (rsrc r)) (regs x))),
@@ -126,12 +128,12 @@ Definition a_tpop (x : ast) : ast * option N :=
 
 Definition a_settime (t : N) (x : ast) : ast := mkAst (regs x) (nseq x) (pend x) t (tseq x) (sflag x).
 
+(* RegisterSize counts a cancelled registration until it is withdrawn *)
 Definition a_regsize (src : lid) (n : name) (x : ast) : nat := length (filter (on_src src n) (regs x)).
 Definition a_timing (x : ast) : bool := negb (is_nil (pend x)).
 
 Definition spec_prims : prims ast :=
   mkPrims ast a_reg a_waiting a_detach a_detach_all a_cancel0 a_cancel_rest a_tadd a_tremove
-          a_tpop a_tpop a_settime a_regsize a_timing
-          (fun v => match v with RPtr => RNil | _ => v end) sflag.
+          a_tpop a_tpop a_settime a_regsize a_timing sflag.
 
 Definition spec_run (ops : list op) : list (option obs) := run_from spec_prims ast_init sh_init ops.
